@@ -55,6 +55,9 @@ pub struct Case {
     pub extra_attrs: bool,
     /// the struct variant that owns the fields carries its own serde(rename) (independent of its rename_all)
     pub variant_renamed: bool,
+    /// the first field is of a type the backend (de)serialises through helpers that name the field's key
+    /// (TypeScript: `Date`, revived by key; Python: datetime validators): a second place that binds the key
+    pub date_typed: bool,
 }
 
 pub fn gen(ch: &mut Chooser, max_fields: usize) -> Case {
@@ -97,7 +100,11 @@ pub fn gen(ch: &mut Chooser, max_fields: usize) -> Case {
     let lang = *ch.pick("lang", &ALL_LANGS);
     let prefixed = ch.flag("cfg");
     let variant_renamed = in_variant && ch.flag("variant_renamed");
-    Case { in_variant, own_rule, enum_rule, fields, style, lang, prefixed, extra_attrs, variant_renamed }
+    let date_typed = matches!(lang, Lang::TypeScript | Lang::Python) && ch.flag("first_field_is_a_date");
+    if date_typed {
+        fields[0].ty = Ty::user("DateTime");
+    }
+    Case { in_variant, own_rule, enum_rule, fields, style, lang, prefixed, extra_attrs, variant_renamed, date_typed }
 }
 
 pub fn program(c: &Case) -> File {
@@ -130,6 +137,14 @@ pub fn program(c: &Case) -> File {
 }
 
 fn cfg_of(c: &Case) -> Cfg {
+    let mut cfg = cfg_base(c);
+    if c.date_typed {
+        cfg.type_mappings.push(("DateTime".into(), if c.lang == Lang::TypeScript { "Date" } else { "datetime" }.into()));
+    }
+    cfg
+}
+
+fn cfg_base(c: &Case) -> Cfg {
     if c.prefixed {
         // the second configuration turns every naming knob on: type prefix, other package, Go acronyms
         let mut cfg = Cfg::prefixed();
@@ -234,6 +249,19 @@ pub fn check_case(c: &Case, choices: &[u32], acc: &mut Acc) {
             });
         }
     }
+    // TypeScript revives dates by key: the reviver's key filter is a second binding of the same key
+    if c.date_typed && c.lang == Lang::TypeScript {
+        acc.judgements += 1;
+        let want = vec![expected[0].clone()];
+        let got = ok.out.reviver_keys.clone();
+        if got.as_ref() != Some(&want) {
+            acc.vios.add(Violation {
+                sig: format!("C01|typescript|{container}|reviver-key-{}|src={}|dash={}", if got.is_none() { "no-reviver" } else { "differs" }, key_source(c, &c.fields[0]), expected[0].contains('-') as u8),
+                detail: json!({"choices": choices, "lang": "typescript", "field": c.fields[0].ident, "expected_key": expected[0], "keys_in_ReviverFunc": got, "source": ok.source, "output": ok.text,
+                    "observation": "the field is a Date, which the generated ReviverFunc revives by key: its key filter must name the serde key of the field"}),
+            });
+        }
+    }
     if fields.len() != c.fields.len() {
         acc.vios.add(Violation {
             sig: format!("C01|{}|{container}|field-count", c.lang.name()),
@@ -315,7 +343,7 @@ pub fn run(args: &[String]) -> i32 {
             let rule = *ch.pick("rename_all", &[None, Some("kebab-case"), Some("camelCase"), Some("SCREAMING_SNAKE_CASE")]);
             let lang = *ch.pick("lang", &ALL_LANGS);
             let prefixed = ch.flag("cfg");
-            Case { in_variant, own_rule: rule, enum_rule: None, fields, style: AttrStyle::Separate, lang, prefixed, extra_attrs: false, variant_renamed: false }
+            Case { in_variant, own_rule: rule, enum_rule: None, fields, style: AttrStyle::Separate, lang, prefixed, extra_attrs: false, variant_renamed: false, date_typed: false }
         };
         let (accs, stats) = explore(
             |ch| {
